@@ -609,19 +609,17 @@ void Interpret::pop(int n) {
     if (config.isIncremental()) {
         if (n < 0) {
             notify_formatted(true, "Incorrect pop command, value is negative.");
+        } else if (static_cast<std::size_t>(n) > main_solver->getAssertionLevel()) {
+            notify_formatted(true, "Attempt to pop beyond the top of the stack");
         } else {
-            bool success = true;
-            while (n-- and success) {
-                success = main_solver->pop();
+            while (n--) {
+                bool const success = main_solver->pop();
+                assert(success);
                 if (success) {
                     defined_functions.popScope();
                 }
             }
-            if (success) {
-                notify_success();
-            } else {
-                notify_formatted(true, "Attempt to pop beyond the top of the stack");
-            }
+            notify_success();
         }
     } else {
         notify_formatted(true, "pop encountered but solver not in incremental mode");
